@@ -1098,6 +1098,9 @@ class Models:
                 m = self.eng.native_models.get(fn)
                 if m is not None:
                     return m(self.I, W, args, kwargs)
+                if getattr(fn, "__module__", None) in ("_codecs", "codecs", "math", "unicodedata", "_operator", "operator", "_string") \
+                        and all_concrete(*args) and all_concrete(*kwargs.values()) and not isinstance(getattr(fn, "__self__", None), (list, dict, set)):
+                    return native(fn, *args, **kwargs)
                 raise Unsupported(f"builtin {fn}")
             if any(isinstance(a, SGen) for a in args) and fn not in (builtins.any, builtins.all, builtins.isinstance, builtins.id, builtins.next, builtins.iter):
                 from . import prelude
@@ -1118,10 +1121,11 @@ class Models:
         if isinstance(fn, (operator.itemgetter, operator.attrgetter)):
             return native(fn, *args)
         if isinstance(fn, functools._lru_cache_wrapper):
-            # cached function: the cache lives in native state; run it natively when nothing symbolic is passed
-            if all_concrete(*args) and all_concrete(*kwargs.values()):
-                return native(fn, *args, **kwargs)
-            raise Unsupported("lru_cache'd function called with symbolic arguments")
+            # the cache is modelled per world (a list of (args, kwargs, result)); lookups compare arguments the way a dict
+            # key comparison would (identity for objects without __eq__, value equality for strings / numbers / tuples)
+            from . import prelude
+            cache = W.tags.setdefault(("lru", id(fn)), [])
+            return Redirect(prelude._lru_call, (cache, fn.__wrapped__, tuple(args), dict(kwargs)))
         if isinstance(fn, functools.partial):
             return Redirect(fn.func, tuple(fn.args) + tuple(args), {**fn.keywords, **kwargs})
         if callable(fn) and not isinstance(fn, (SStr, SChar, SBool, SInt, SSet)):
@@ -1330,7 +1334,11 @@ class Models:
                 raise
 
         def b_setattr(W, a, k):
-            return M.set_attr(W, a[0], a[1], a[2]) or None
+            r = M.set_attr(W, a[0], a[1], a[2])
+            if isinstance(r, Redirect):
+                r.ret = ("const", None)
+                return r
+            return None
 
         def b_id(W, a, k):
             return M.logical_id(W, a[0])
@@ -1477,7 +1485,22 @@ class Models:
             return r
         if name in ("lower", "upper", "casefold", "swapcase"):
             f = getattr(str, name)
-            return mk([f(c) if isinstance(c, str) else c.map(f) for c in cs])
+            out = []
+            for c in cs:
+                if isinstance(c, str):
+                    out.extend(f(c))
+                    continue
+                odd = [b for b in c.var.alpha if len(f(c.value_of(b))) != 1]
+                done = False
+                for b in odd:
+                    # a character whose case mapping changes the length (e.g. U+0130): decide it concretely
+                    if self.truth(W, c.eq(c.value_of(b))):
+                        out.extend(f(c.value_of(b)))
+                        done = True
+                        break
+                if not done:
+                    out.append(c.map(lambda ch: f(ch) if len(f(ch)) == 1 else ch))
+            return mk(out)
         if name in ("capitalize", "title"):
             if name == "capitalize":
                 out = []
@@ -1570,9 +1593,10 @@ class Models:
             return mk(out)
         if name in ("find", "index", "rfind", "rindex"):
             sub = chars(a[0])
-            if len(a) > 1:
-                raise Unsupported("find with offsets")
-            rng = range(0, len(cs) - len(sub) + 1)
+            lo = 0 if len(a) < 2 or a[1] is None else I.concretize_int(W, a[1])
+            hi = len(cs) if len(a) < 3 or a[2] is None else I.concretize_int(W, a[2])
+            lo, hi, _ = slice(lo, hi).indices(len(cs))
+            rng = range(lo, hi - len(sub) + 1)
             if name.startswith("r"):
                 rng = reversed(rng)
             for i in rng:
